@@ -64,7 +64,10 @@ def extra_checks(ctx):
     nfail = 0
     for c in cases:
         keys.add((c["SR"], c["npts"], tuple(c["sine"])))
-        fails = numeric.c02_oracle(c)
+        try:
+            fails = numeric.c02_oracle(c)
+        except Exception as e:  # noqa: BLE001
+            fails = [f"PulseAtoms raised {type(e).__name__} on valid arguments: {str(e)[:120]}"]
         if fails and nfail < 3:
             nfail += 1
             ctx["report"](fails[0], {"numeric_case": c, "oracle_failures": fails}, True)
@@ -77,7 +80,10 @@ def search_failing_input(ctx):
     rng = random.Random(ctx["seed"] + 3)
     out = []
     for c in numeric.c02_cases(rng, 3000):
-        fails = numeric.c02_oracle(c)
+        try:
+            fails = numeric.c02_oracle(c)
+        except Exception as e:  # noqa: BLE001
+            fails = [f"PulseAtoms raised {type(e).__name__} on valid arguments: {str(e)[:120]}"]
         if fails:
             out.append((fails[0], {"numeric_case": c, "oracle_failures": fails}))
             if len(out) >= 3:
